@@ -120,6 +120,9 @@ class Wavefunction:
 
     def __setitem__(self, idx, val):
         old_val = self._amplitude_vector[idx]
+        if isinstance(old_val, np.ndarray):
+            # Indexing may return a view, which the assignment below would overwrite.
+            old_val = old_val.copy()
         self._amplitude_vector[idx] = val
 
         try:
